@@ -70,6 +70,19 @@ CHECKS = {
              "analytic path and REFUTED for the code as it stands (known finding). Tied by AST pins and bit-exact correspondence of the "
              "masking / in_image decisions computed in Coq.",
         ref="5 C04", technique="Coq proof over hand model (primitive floats) + refutation witness + AST pins + correspondence"),
+    "C06": dict(
+        text="Theorem elementwise_is_pointwise over an array IR (any batch length, any interpretation of the operators): an `evaluate` "
+             "body without element-0 indexing computes on a batch the map of its scalar evaluation; split_concat_commutes. The IR of "
+             "every model of geometry.py/spectroscopy.py is REGENERATED each run by the T1 translator and Coq computes the premise "
+             "(forallb elementwise) per model; masked evaluation is pointwise by C03.batch_pointwise. A batch-vs-element oracle covers "
+             "every entry point and package model over 5 shapes, permutations, partitions, memory layouts, NaN-containing batches.",
+        ref="5 C06", technique="Coq proof (induction on IR regenerated from source) + batch-vs-element oracle on the implementation"),
+    "C19": dict(
+        text="Theorems over the REAL-NUMBER functions regenerated each run from the evaluate bodies (T1 translator): unit sphere, "
+             "normalised direction cosines, from(to(v))=(x,y,1), grating equation and unit triples, Snell, Sellmeier formula, Zemax = "
+             "hand-transcribed published formula (by reflexivity), lat in [-90,90], lon in [0,360)/[-180,180], poles -> 0. The numpy "
+             "closure emitted by the same AST walk is compared bit for bit with evaluate. PARTIAL: binary64 behaviour is sampled.",
+        ref="5 C19", technique="Coq proof over real-number model regenerated from source by translator + bit-exact translator self-check"),
 }
 
 NOT_YET = "check not built yet in this session (work in progress; see DESIGN.md section 10 build order)"
